@@ -55,7 +55,8 @@ func readGauges() map[string]float64 {
 	return out
 }
 
-var c20Kinds = []string{"complete-1", "complete-multi", "abandon-eof", "abandon-silence", "even-first", "seq-violation", "key-mismatch", "refused", "oversize", "truncated", "idle", "open-at-shutdown", "two-sessions-one-abandoned"}
+var c20Kinds = []string{"complete-1", "complete-multi", "abandon-eof", "abandon-silence", "even-first", "seq-violation", "key-mismatch", "refused", "oversize", "truncated", "idle", "open-at-shutdown", "two-sessions-one-abandoned",
+	"many-open-sessions", "reply-write-fails", "reply-write-fails-then-more"}
 
 func runC20(b *mon.B) {
 	r := gen.New(uint64(b.Seed), 0xC20, uint64(b.Index))
@@ -66,6 +67,7 @@ func runC20(b *mon.B) {
 		return
 	}
 	caseNo := 0
+	noServeReturn := 0 // after two such bursts the dial-after-cancel ending is not used any more (each costs a watchdog)
 	nBursts := b.N(130, 5000)
 	for k := 0; k < nBursts; k++ {
 		caseNo++
@@ -198,6 +200,26 @@ func runC20(b *mon.B) {
 				send(pkt(sid+1, 1, 'C'))
 				send(pkt(sid, 3, 'x'))
 				c.EOF()
+			case "many-open-sessions":
+				n := rr.Pick(70, 129, 140)
+				for j := 0; j < n; j++ {
+					c.Feed(pkt(sid+uint32(j), 1, 'C'))
+				}
+				c.WaitQuiescent()
+				if !concurrent {
+					sample()
+				}
+				c.EOF()
+			case "reply-write-fails":
+				c.FailNextWrites(fmt.Errorf("write: broken pipe"))
+				send(pkt(sid, 1, 'x'))
+				c.EOF()
+			case "reply-write-fails-then-more":
+				c.FailNextWrites(fmt.Errorf("write: broken pipe"))
+				send(pkt(sid, 1, 'C'))
+				send(pkt(sid, 3, 'x'))
+				send(pkt(sid+1, 1, 'x'))
+				c.EOF()
 			case "even-first":
 				send(pkt(sid, 2*(1+rr.Intn(100)), 'x'))
 			case "seq-violation":
@@ -243,13 +265,33 @@ func runC20(b *mon.B) {
 			}
 		}
 		sample()
+		var lateConn *simnet.Conn
+		if k%4 == 1 && noServeReturn < 2 {
+			// shutdown races with an arriving client: the context is cancelled while Serve is
+			// parked in Accept, and a connection comes in before Accept returns
+			srv.Cancel()
+			lateConn = srv.L.Dial(simnet.RemoteFor(999))
+			key += "+dial-after-cancel"
+		}
+		world.Watchdog = 8 * time.Second
 		err := srv.Stop()
 		close(stopSampler)
 		samplerDone.Wait()
 		if err != nil {
-			b.Inconclusive("burst %d: Serve did not return before the watchdog", caseNo)
-			base = readGauges()
-			continue
+			// no Serve return; is the system quiescent by state (every connection closed)?
+			allClosed := lateConn == nil || lateConn.Closed()
+			oaMu.Lock()
+			for _, c := range openAtShutdown {
+				allClosed = allClosed && c.Closed()
+			}
+			oaMu.Unlock()
+			if !allClosed {
+				b.Inconclusive("burst %d: Serve did not return before the watchdog", caseNo)
+				base = readGauges()
+				continue
+			}
+			b.Count("bursts_judged_without_serve_return", 1)
+			noServeReturn++
 		}
 		after := readGauges()
 		sample()
